@@ -342,9 +342,9 @@ class CParser:
                     or len(spec["type"][-1].names) != 1
                     or not self._is_type_in_scope(spec["type"][-1].names[0])
                 ):
-                    coord = "?"
+                    coord = self.clex.filename
                     for t in spec["type"]:
-                        if hasattr(t, "coord"):
+                        if getattr(t, "coord", None) is not None:
                             coord = t.coord
                             break
                     self._parse_error("Invalid declaration", coord)
